@@ -390,6 +390,30 @@ def bound(ctx: Any) -> List[Ob]:
     return obs
 
 
+@rule('C18.CACHEKEYS', 'D', expect_min=2)
+def cachekeys(ctx: Any) -> List[Ob]:
+    """`cache-first` and `omitting questions whose answers it already holds` for names as users spell them: the lookup hands
+    the instance name and the host name to the cache as spelled, so every cache read method it calls must lower-case the
+    name before it indexes (the C05.KEYS obligations restricted to the methods the lookup calls)."""
+    from .c05 import keys as c05_keys
+
+    R = 'C18.CACHEKEYS'
+    prog = ctx.prog
+    info_c = prog.cls(INFO)
+    called = set()
+    for m in info_c.methods.values():
+        for cs in ctx.cg.sites_in(m):
+            for t in cs.targets:
+                if t.cls is not None and t.cls.full == 'zeroconf._cache.DNSCache':
+                    called.add(t.qual)
+    if len(called) < 2:
+        raise AnalysisError(f'anchor vanished: cache methods called by the lookup (found {sorted(called)})')
+    out = [o for o in c05_keys.fn(ctx) if str(o.function) in called]
+    for o in out:
+        o.rule = R
+    return out
+
+
 @rule('C18.ASK', 'D', expect_min=4)
 def ask(ctx: Any) -> List[Ob]:
     """The first query of a lookup really goes out: a QU question is asked whatever the duplicate-question history holds
@@ -412,4 +436,4 @@ EXPLANATION_ADDENDUM = (
 )
 EXPLANATION = EXPLANATION + EXPLANATION_ADDENDUM
 
-RULES = [expiry, match, bound, ask]
+RULES = [expiry, match, bound, cachekeys, ask]
